@@ -141,15 +141,16 @@ type World struct {
 }
 
 type clientState struct {
-	id         int
-	known      map[string][]uint64
-	tomb       map[string]uint64
-	lastHdr    uint64
-	maxSeen    uint64
-	task       *rt.Task
-	finished   bool
-	busyNode   int
-	sleepUntil time.Duration
+	id          int
+	known       map[string][]uint64
+	tomb        map[string]uint64
+	lastHdr     uint64
+	lastListHdr uint64
+	maxSeen     uint64
+	task        *rt.Task
+	finished    bool
+	busyNode    int
+	sleepUntil  time.Duration
 }
 
 // InstallHooks points the repository's hook functions at the scheduler.
